@@ -26,6 +26,7 @@ type C07Case struct {
 	Mut     []Mutation `json:"mut"` // corruption (flip/sub) or a single trunc
 	Reads   []int      `json:"reads"`
 	BufSrc  int        `json:"buf_src"`
+	Single  bool       `json:"single,omitempty"` // gzip: Multistream(false): only the first member is read
 }
 
 func buildMembers(pkg string, ms []Member) (z []byte, bounds []int, payload []byte, err error) {
@@ -79,6 +80,12 @@ func drawC07(t *rapid.T) C07Case {
 	}
 	c.Reads = drawReadSizes(t)
 	c.BufSrc = rapid.SampledFrom([]int{0, 0, 16, 4096}).Draw(t, "bufsrc")
+	if c.Pkg == "gzip" {
+		c.Single = rapid.IntRange(0, 2).Draw(t, "single") == 0
+		for i := range c.Members {
+			c.Members[i].HCRC = rapid.IntRange(0, 2).Draw(t, "hcrc") == 0
+		}
+	}
 	return c
 }
 
@@ -169,10 +176,10 @@ func checkC07(c C07Case) (labels []string, nontrivial bool, err error) {
 	var refPayload []byte
 	emptyOK := false
 	if c.Pkg == "gzip" {
-		g := refinflate.ParseGzip(z, true)
+		g := refinflate.ParseGzip(z, !c.Single)
 		verdict = g.Verdict
 		emptyOK = g.EmptyInput
-		pg := refinflate.ParseGzipOpt(z, true, true)
+		pg := refinflate.ParseGzipOpt(z, !c.Single, true)
 		pverdict, refPayload = pg.Verdict, pg.Payload
 	} else {
 		verdict = refinflate.ParseZlib(z, nil).Verdict
@@ -187,6 +194,9 @@ func checkC07(c C07Case) (labels []string, nontrivial bool, err error) {
 	var openErr error
 	if c.Pkg == "gzip" {
 		gz, e := fgzip.NewReader(src)
+		if e == nil && c.Single {
+			gz.Multistream(false)
+		}
 		r, openErr = gz, e
 	} else {
 		zr, e := fzlib.NewReader(src)
@@ -226,7 +236,19 @@ func checkC07(c C07Case) (labels []string, nontrivial bool, err error) {
 	} else if verdict == refinflate.CValid && !emptyOK {
 		return nil, false, fmt.Errorf("%s: the input is still a valid container (%d payload bytes) but the Reader ends with %v", desc, len(refPayload), rerr)
 	}
-	if isTrunc {
+	if isTrunc && c.Single {
+		first := c.Members[0].Data.Bytes()
+		if !bytes.HasPrefix(first, out) {
+			return nil, false, fmt.Errorf("%s (single-member mode): bytes handed out (%d) are not a prefix of the first member's payload", desc, len(out))
+		}
+		if len(z) >= bounds[0] {
+			if rerr != io.EOF || len(out) != len(first) {
+				return nil, false, fmt.Errorf("%s (single-member mode): first member is complete, got %d bytes then %v", desc, len(out), rerr)
+			}
+		} else if len(z) > 0 && rerr != io.ErrUnexpectedEOF {
+			return nil, false, fmt.Errorf("%s (single-member mode): cut inside the member must end in io.ErrUnexpectedEOF, got %v", desc, rerr)
+		}
+	} else if isTrunc {
 		if !bytes.HasPrefix(payload, out) {
 			return nil, false, fmt.Errorf("%s: bytes handed out (%d) are not a prefix of the true payload (first difference at %d)", desc, len(out), firstDiff(out, payload))
 		}
@@ -250,6 +272,15 @@ func checkC07(c C07Case) (labels []string, nontrivial bool, err error) {
 	}
 	if len(c.Members) > 1 {
 		labels = append(labels, "multi-member")
+	}
+	if c.Single {
+		labels = append(labels, "single-member-mode")
+	}
+	for _, m := range c.Members {
+		if m.HCRC {
+			labels = append(labels, "has-header-crc")
+			break
+		}
 	}
 	return labels, verdict != refinflate.CValid, nil
 }
